@@ -272,6 +272,42 @@ Section cluster.
     rewrite (not_before_within t t' Hv Hvy H1 (Hwithin _ _ _ _ _ _ Hin Hin')) in Hlt. discriminate.
   Qed.
 
+  (** Within one forgiveness period the purge task has nothing to purge: no tombstone of the
+      history is older than a cut-off.  The purge handler leaves the node as it is. *)
+  Lemma purge_is_noop_within_W x : NInv x -> (actor_step false true x RPurge SOk).1 = x.
+  Proof.
+    destruct x as [s st]. intros Hx. pose proof Hx as ([Hi Hag] & _ & _ & Hs). cbn [fst snd] in *.
+    unfold actor_step, on_purge, set_purge.
+    assert (Hdead : forall k d, dead s !! k = Some d -> before (versions s) d = false).
+    { intros k d Hd. apply (none_before_H (s, st) k d true Hx). apply Hs. unfold view.
+      destruct (proj1 Hi k) as [He|Hn]; [rewrite He, Hd; reflexivity|congruence]. }
+    rewrite (filter_none (fun kt : N * N => before (versions s) kt.2 = true)).
+    - cbn [foldl fst]. rewrite map_filter_id.
+      + destruct s; reflexivity.
+      + intros k d Hd. cbn [snd]. exact (Hdead k d Hd).
+    - intros [k d] Hin. apply elem_of_map_to_list in Hin. cbn [snd]. rewrite (Hdead k d Hin). discriminate.
+  Qed.
+
+  (** A node restarted on its own store (the set rebuilt by [load_states_from_storage]) is again
+      a consistent node of the history and shows what it showed before. *)
+  Lemma restart_ok x :
+    NInv x -> NInv (rebuild 2 x.2, x.2) /\ forall k, view (rebuild 2 x.2) k = view x.1 k.
+  Proof.
+    intros (HA & Hn & HM & Hs).
+    assert (Hsv : StoreValid x.2).
+    { intros k t p Hst. pose proof (proj2 HA k) as Hag. unfold meta in Hag. rewrite Hst in Hag.
+      destruct p; apply Hs in Hag; exact (proj1 (Hvalid _ _ _ Hag)). }
+    assert (Hv : forall k, view (rebuild 2 x.2) k = view x.1 k).
+    { intros k. rewrite (proj2 (rebuild_view 2 x.2 k ltac:(lia) Hsv)). symmetry. apply (proj2 HA). }
+    split; [|exact Hv]. split; [|split; [|split]].
+    - split; [exact (proj1 (rebuild_view 2 x.2 0 ltac:(lia) Hsv))|].
+      intros k. cbn [fst snd]. exact (proj2 (rebuild_view 2 x.2 k ltac:(lia) Hsv)).
+    - apply rebuild_length.
+    - cbn [fst]. apply rebuild_MaxsFrom. intros k t b Hm. rewrite <- (proj2 HA k) in Hm.
+      apply Hs in Hm. exact (HS_in _ _ _ Hm).
+    - intros k t d. cbn [fst]. rewrite Hv. apply Hs.
+  Qed.
+
   Definition src_ok (r : request) : Prop :=
     match r with RSet s _ | RMultiSet s _ | RDel s _ | RMultiDel s _ => (s < 2)%nat | RPurge => True end.
 
@@ -531,7 +567,7 @@ Section convergence.
     | CRepair j i => (j < n)%nat /\ (i < n)%nat
     | CDiffRemovals j removed => (j < n)%nat /\ (forall k t, (k, t) ∈ removed -> (k, t, true) ∈ H)
     | CFetchApply j i _ => (j < n)%nat /\ (i < n)%nat
-    | CPurge _ | CRestart _ => False   (* handled separately: see [purge_is_noop_within_W] *)
+    | CPurge i | CRestart i => (i < n)%nat
     end.
 
   Lemma mutation_request_ok m : mut_in_H m ->
@@ -624,6 +660,15 @@ Section convergence.
                   (modified_requests_ok H Hvalid Hwithin Hdistinct (node c i) modified (node_ok n c i Hc))) as (HN & Hmono & _).
       split; [apply upd_ok; assumption|]. intros idx k. rewrite node_upd by (rewrite Hlen; exact Hj).
       destruct (decide (idx = j)) as [->|_]; [apply Hmono|apply vle_refl].
+    - (* purge: nothing to purge within the period *)
+      rewrite (purge_is_noop_within_W H Hvalid Hwithin Hdistinct _ (node_ok n c i Hc)).
+      split; [apply upd_ok; [assumption|exact (node_ok n c i Hc)]|].
+      intros idx k. rewrite node_upd by (rewrite Hlen; exact Hwf).
+      destruct (decide (idx = i)) as [->|_]; apply vle_refl.
+    - (* restart on the node's own store *)
+      destruct (restart_ok H Hvalid Hwithin Hdistinct _ (node_ok n c i Hc)) as [HN Hv].
+      split; [apply upd_ok; assumption|]. intros idx k. rewrite node_upd by (rewrite Hlen; exact Hwf).
+      destruct (decide (idx = i)) as [->|_]; [cbn [fst]; rewrite Hv|]; apply vle_refl.
   Qed.
 
   Lemma crun_ok n es : forall c,
